@@ -5,7 +5,7 @@
     wannierberri/result/energyresult.py : EnergyResult.__init__ (titles), __add__, __mul__, __truediv__, __sub__,
                                           mul_array, transform, as_dict, from_npz
     wannierberri/result/result.py       : VoidResult (+, *, -, /, transform, as_dict)
-    wannierberri/result/kbandresult.py  : K__Result.__add__ (k-point concatenation), __mul__, __sub__, add, data
+    wannierberri/result/kbandresult.py  : K__Result.__add__ (k-point concatenation; 0 / None / Void neutral on the right), __mul__, __sub__, add, data
     wannierberri/result/resultdict.py   : ResultDict.__add__, __mul__, __truediv__, __sub__, transform
     wannierberri/symmetry/point_symmetry.py : PointSymmetry.transform_tensor, Transform.__call__/__eq__/as_dict,
                                           transform_from_dict
@@ -187,6 +187,14 @@ def Res.transform (cj : K → K) (g : Sym K) : Res K → Except Err (Res K)
   | .void => .ok .void
   | .energy a => (a.transform cj g).map .energy
 
+/-- what may stand to the right of `+` for a k-resolved result or a dictionary:
+    the int 0 (start value of `sum`), `None`, the void result, or a result of the same kind -/
+inductive RhsOf (α : Type)
+  | zero
+  | none
+  | void
+  | res (r : α)
+
 /-! ### `ResultDict` (insertion-ordered dictionary of results) -/
 
 abbrev RDict (K : Type) := List (String × Res K)
@@ -205,6 +213,13 @@ def RDict.add : RDict K → RDict K → Except Err (RDict K)
       | .ok s, .ok tl => .ok ((k, s) :: tl)
       | .error x, _ => .error x
       | _, .error x => .error x
+
+/-- `ResultDict.__add__(other)` with its guard `other == 0 or other is None or isinstance(other, VoidResult)` -/
+def RDict.addRhs (d : RDict K) : RhsOf (RDict K) → Except Err (RDict K)
+  | .zero => .ok d
+  | .none => .ok d
+  | .void => .ok d
+  | .res e => d.add e
 
 def RDict.sub (d e : RDict K) : Except Err (RDict K) := d.add (e.mul (-1))
 
@@ -256,6 +271,13 @@ def KRes.fit (a b : KRes K) : Bool :=
 /-- `K__Result.__add__`: the k-point lists are CONCATENATED (the sum over disjoint sets of k-points) -/
 def KRes.add (a b : KRes K) : Except Err (KRes K) :=
   if a.fit b then .ok { a with blocks := a.blocks ++ b.blocks } else .error .assertion
+
+/-- `K__Result.__add__(other)` with its guard for the neutral elements -/
+def KRes.addRhs (a : KRes K) : RhsOf (KRes K) → Except Err (KRes K)
+  | .zero => .ok a
+  | .none => .ok a
+  | .void => .ok a
+  | .res b => a.add b
 
 def KRes.mul (a : KRes K) (c : K) : KRes K :=
   { a with blocks := a.blocks.map (fun b => ⟨b.nk, scaleData b.arr c⟩) }
@@ -619,6 +641,14 @@ def handle : List String → String
     match parseNats? tl, parseKRes? (rest.take 8), parseKRes? (rest.drop 8) with
     | some tl, some a, some b => showKRes tl (a.addInPlace b)
     | _, _, _ => "bad-op"
+  -- kaddrhs <tail> <Z|NONE|V> <kres(8)>
+  | "kaddrhs" :: tl :: r :: rest =>
+    match parseNats? tl, parseKRes? rest with
+    | some tl, some a =>
+      if r = "Z" then showExcept (showKRes tl) (a.addRhs .zero)
+      else if r = "NONE" then showExcept (showKRes tl) (a.addRhs .none)
+      else if r = "V" then showExcept (showKRes tl) (a.addRhs .void) else "bad-op"
+    | _, _ => "bad-op"
   | "kmul" :: tl :: c :: rest =>
     match parseNats? tl, parseGRat? c, parseKRes? rest with
     | some tl, some c, some a => showKRes tl (a.mul c)
@@ -636,6 +666,14 @@ def handle : List String → String
     let d : RDict GRat := (strList ka).map (fun k => (k, Res.void))
     let e : RDict GRat := (strList kb).map (fun k => (k, Res.void))
     showExcept (fun r => showStrs (r.map (·.1))) (d.add e)
+  -- rdkeysrhs <keysA> <Z|NONE|V>
+  | ["rdkeysrhs", ka, r] =>
+    let d : RDict GRat := (strList ka).map (fun k => (k, Res.void))
+    let rhs : Option (RhsOf (RDict GRat)) :=
+      if r = "Z" then some .zero else if r = "NONE" then some .none else if r = "V" then some .void else none
+    match rhs with
+    | some rhs => showExcept (fun r => showStrs (r.map (·.1))) (d.addRhs rhs)
+    | none => "bad-op"
   | "asdict" :: rest =>
     match parseRes? rest with
     | some (a, []) => showExcept showDict a.asDict
